@@ -18,6 +18,7 @@
 package validator
 
 import (
+	"io"
 	"net/http"
 
 	"fmt"
@@ -152,7 +153,16 @@ func (v *Validator) Handle(ctx *context.Context) string {
 		}
 	}
 	if v.signer != nil {
-		if err := v.signer.Verify(req.Std()); err != nil {
+		stdr := req.Std()
+		if !req.IsStream() {
+			// The body of the underlying request has already been read into the
+			// payload, verify the signature against the payload (that is what
+			// will be forwarded), not against the drained body.
+			r := *stdr
+			r.Body = io.NopCloser(req.GetPayload())
+			stdr = &r
+		}
+		if err := v.signer.Verify(stdr); err != nil {
 			prepareErrorResponse(http.StatusUnauthorized, "signature validator: ", err)
 			return resultInvalid
 		}
